@@ -796,7 +796,12 @@ func payloadGen(known map[string]any, code func(string) (uint32, bool), unknown 
 			}
 			v.FieldByName("SumType").SetString(unknown)
 			setOp(op)
-			v.FieldByName("Value").Set(reflect.ValueOf(c))
+			// the decoders store a *boc.Cell; callers inside the library (contract/nft) also hand over a boc.Cell value
+			if g.Rng.Intn(2) == 0 {
+				v.FieldByName("Value").Set(reflect.ValueOf(*c))
+			} else {
+				v.FieldByName("Value").Set(reflect.ValueOf(c))
+			}
 		default:
 			n := names[g.Rng.Intn(len(names))]
 			val := reflect.New(reflect.TypeOf(known[n])).Elem()
@@ -901,6 +906,8 @@ func dump(v reflect.Value, tag string, depth int) any {
 		if iv := v.FieldByName("Value"); !iv.IsNil() {
 			if c, ok := iv.Interface().(*boc.Cell); ok {
 				out["v"] = Tree(c)
+			} else if c, ok := iv.Interface().(boc.Cell); ok {
+				out["v"] = Tree(&c)
 			} else {
 				out["v"] = dump(iv.Elem(), "", depth+1)
 			}
